@@ -1013,6 +1013,15 @@ def operand_shifted(body, operand, depth=6):
         if len(ds) != 1 or l <= body.argc:
             return None
         bi, si, pl, rv = ds[0]
+        if si == 't' and not isinstance(rv, tuple) and not pl[1]:
+            c = rv
+            nm = c.best()
+            # operator traits on newtype wrappers: `epoch + 1`
+            if re.search(r'std::ops::arith::(Add|Sub|Mul|Div)>?::(add|sub|mul|div)$', nm) or re.search(r'::(saturating|wrapping|checked)_(add|sub|mul)$', nm):
+                if any(body.const_of(a) is not None or a[0] == 'const' for a in c.args):
+                    return '%s with a constant (line %d)' % (nm.rsplit('::', 1)[-1], c.line)
+                return None
+            return None
         if si == 't' or pl[1]:
             return None
         if rv[0] == 'bin' and rv[1] in ('Add', 'Sub', 'Mul', 'AddWithOverflow', 'SubWithOverflow', 'MulWithOverflow', 'Shl', 'Shr', 'Div'):
@@ -1028,6 +1037,9 @@ def operand_shifted(body, operand, depth=6):
             continue
         if rv[0] == 'cast' and rv[2][0] in ('copy', 'move') and not rv[2][1][1]:
             l = rv[2][1][0]
+            continue
+        if rv[0] in ('ref', 'cfd') and not [e for e in rv[1][1] if isinstance(e, tuple)]:
+            l = rv[1][0]
             continue
         return None
     return None
